@@ -26,7 +26,7 @@ DEFAULT_PROFILE = dict(
     subscript_whole_array_results=True, raise_=True, nested_calls=True,
     persistent_arrays=True, name_pool="plain", zero_trip=True, negative_consts=True,
     dead_code=True, cond_in_call_args=True, bare_power=True, ne_operator=True,
-    pow_of_pow=True, loop_bound_vars=True, fresh_names=False, lookups=False, complex_vars=False, assign_all_state=False, time_advance=True, force_phases=None, extra_kinds=(), zero_arg_calls=True,
+    pow_of_pow=True, loop_bound_vars=True, fresh_names=False, lookups=False, complex_vars=False, assign_all_state=False, time_advance=True, force_phases=None, extra_kinds=(), zero_arg_calls=True, builtin_set=None, yield_uvec_only=False, matmul_only=False, yield_call_free=False, minmax_loop_counter=True,
     real_temps=None, uvec_temps=None, arr_temps=None, flag_temps=None, int_temps=None,
 )
 
@@ -78,6 +78,7 @@ class Gen:
         self.loop_env = {}    # loop var -> (lo, hi) known range while generating a looped statement
         self.phase_names = []
         self.features = set()
+        self.lbound1 = set()   # arrays that gfortran (re)allocates 1-based (results of whole-array expressions)
         self.REAL_TEMPS = self.p["real_temps"] or REAL_TEMPS
         self.UVEC_TEMPS = self.p["uvec_temps"] or UVEC_TEMPS
         self.ARR_TEMPS = self.p["arr_temps"] or ARR_TEMPS
@@ -85,6 +86,13 @@ class Gen:
         self.INT_TEMPS = self.p["int_temps"] or INT_TEMPS
 
     # ---- small helpers
+    def allowed(self, names):
+        bs = self.p["builtin_set"]
+        if bs is None:
+            return names
+        out = [n for n in names if n in bs]
+        return out or ["<builtin>len"]
+
     def choice(self, seq):
         return self.draw(st.sampled_from(list(seq)))
 
@@ -94,6 +102,11 @@ class Gen:
     def names_of(self, typ):
         if typ == "arr":
             return [n for n, t in self.defined.items() if isinstance(t, list) and t[0] == "arr"]
+        if typ == "arr_indexable":
+            out = [n for n, t in self.defined.items() if isinstance(t, list) and t[0] == "arr"]
+            if not self.p["subscript_whole_array_results"]:
+                out = [n for n in out if n not in self.lbound1]
+            return out
         return [n for n, t in self.defined.items() if t == typ]
 
     def define(self, name, typ):
@@ -189,8 +202,10 @@ class Gen:
         if self.p["ifexpr"]:
             opts.append("if")
         arrs = self.names_of("arr")
-        if arrs:
+        iarrs = self.names_of("arr_indexable")
+        if iarrs:
             opts += ["sub", "sub"]
+        if arrs:
             if self.p["array_builtins"]:
                 opts.append("arrfn")
         uv = self.names_of(UVEC)
@@ -217,23 +232,26 @@ class Gen:
                 base = C(-base[1])
             return ["pow", base, C(e)]
         if k == "minmax":
-            return [self.choice(["min", "max"]), self.real_expr(d), self.real_expr(d)]
+            args = [self.real_expr(d), self.real_expr(d)]
+            if not self.p["minmax_loop_counter"]:
+                args = [C(2) if integer_typed(a, self.loop_env) else a for a in args]
+            return [self.choice(["min", "max"])] + args
         if k == "if":
             self.features.add("ifexpr")
             return ["if", self.bool_expr(d), self.real_expr(d), self.real_expr(d)]
         if k == "sub":
-            a = self.choice(arrs)
+            a = self.choice(iarrs)
             return ["sub", V(a), [self.index_expr(self.defined[a][1])]]
         if k == "arrfn":
             a = self.choice(arrs)
-            f = self.choice(["<builtin>len", "<builtin>norm_1", "<builtin>norm_inf", "<builtin>dot_product"])
+            f = self.choice(self.allowed(["<builtin>len", "<builtin>norm_1", "<builtin>norm_inf", "<builtin>dot_product"]))
             if f == "<builtin>dot_product":
                 same = [b for b in arrs if self.defined[b][1] == self.defined[a][1]]
                 return ["call", f, [V(a), V(self.choice(same))], {}]
             return ["call", f, [V(a)], {}]
         if k == "uvfn":
             u = self.choice(uv)
-            f = self.choice(["<builtin>len", "<builtin>norm_1", "<builtin>norm_inf", "<builtin>dot_product"])
+            f = self.choice(self.allowed(["<builtin>len", "<builtin>norm_1", "<builtin>norm_inf", "<builtin>dot_product"]))
             if f == "<builtin>dot_product":
                 return ["call", f, [V(u), V(self.choice(uv))], {}]
             return ["call", f, [V(u)], {}]
@@ -346,7 +364,7 @@ class Gen:
     def uvec_expr(self, depth):
         uv = self.names_of(UVEC)
         opts = ["var", "lin", "lin", "scale"]
-        if self.p["array_builtins"]:
+        if self.p["array_builtins"] and (self.p["builtin_set"] is None or "<builtin>elementwise_abs" in self.p["builtin_set"]):
             opts.append("abs")
         if self.p["calls"] and self.p["nested_calls"]:
             opts.append("call")
@@ -378,7 +396,8 @@ class Gen:
     def arr_expr(self, n):
         """Whole-array expression of length n."""
         same = [a for a in self.names_of("arr") if self.defined[a][1] == n]
-        k = self.choice(["scale", "lin", "abs"] if self.p["array_builtins"] else ["scale", "lin"])
+        k = self.choice(["scale", "lin", "abs"] if self.p["array_builtins"] and (
+            self.p["builtin_set"] is None or "<builtin>elementwise_abs" in self.p["builtin_set"]) else ["scale", "lin"])
         if k == "scale":
             return normal(["prod", self.coef(1), V(self.choice(same))])
         if k == "lin":
@@ -482,6 +501,7 @@ class Gen:
             return []
         nt, n = r
         ops = [["call", [name], "<builtin>array", [nt], {}]]
+        self.lbound1.discard(name)
         typ = ["arr", n]
         # full initialisation loop a[i] <- expr(i)
         lv = self.choice(LOOP_VARS)
@@ -495,7 +515,7 @@ class Gen:
         return ops
 
     def op_array_write(self):
-        arrs = [a for a in self.names_of("arr")]
+        arrs = [a for a in self.names_of("arr_indexable")]
         if not arrs:
             return []
         a = self.choice(arrs)
@@ -545,11 +565,13 @@ class Gen:
 
     def op_array_whole(self):
         arrs = self.names_of("arr")
-        if not arrs or not self.p["whole_array_ops"]:
+        if not arrs or not (self.p["whole_array_ops"] or self.p["matmul_only"]):
             return []
         src = self.choice(arrs)
         n = self.defined[src][1]
         k = self.choice(["expr", "expr", "alias", "transpose", "matmul"])
+        if self.p["matmul_only"] and not self.p["whole_array_ops"]:
+            k = self.choice(["transpose", "matmul"])
         cands = [x for x in self.ARR_TEMPS if x not in self.types or self.types[x] == ["arr", n]]
         if not cands:
             return []
@@ -561,6 +583,8 @@ class Gen:
         if k == "expr":
             same = [a for a in arrs if self.defined[a][1] == n]
             rhs = self.arr_expr(n)
+            if name not in self.defined or name in self.lbound1:
+                self.lbound1.add(name)      # freshly (re)allocated by the assignment: lower bound 1 in Fortran
             self.define(name, ["arr", n])
             self.features.add("whole_array")
             return [["assign", name, None, rhs, []]]
@@ -647,7 +671,26 @@ class Gen:
     def op_yield(self):
         if not self.p["yields"]:
             return []
+        if self.p["yield_call_free"]:
+            # the Fortran target only isolates calls out of assignments; a call inside a yielded
+            # expression or time makes it raise "bare Call encountered"
+            saved = (self.p["nested_calls"], self.p["array_builtins"], self.p["calls"], self.p["isnan"])
+            self.p["nested_calls"] = self.p["array_builtins"] = self.p["calls"] = self.p["isnan"] = False
+            try:
+                return self._op_yield()
+            finally:
+                self.p["nested_calls"], self.p["array_builtins"], self.p["calls"], self.p["isnan"] = saved
+        return self._op_yield()
+
+    def _op_yield(self):
         uv = self.names_of(UVEC)
+        if self.p["yield_uvec_only"]:
+            if not uv:
+                return []
+            expr = V(self.choice(uv)) if self.chance(60) else self.uvec_expr(1)
+            time = self.choice([V("<t>"), normal(["sum", V("<t>"), V("<dt>")]), self.real_expr(1)])
+            self.features.add("yield")
+            return [["yield", expr, "y", time, self.choice(TIME_IDS)]]
         if uv and self.chance(70):
             expr = V(self.choice(uv)) if self.chance(60) else self.uvec_expr(1)
             comp = self.choice(["y", "u"])
@@ -753,6 +796,23 @@ class Gen:
                 new = self.op_exit()
             ops.extend(new)
         return ops
+
+
+def integer_typed(t, loop_vars):
+    """Would the Fortran printer give this expression INTEGER type?  (Only loop counters are
+    integers; every constant is printed as a double, except the exponent of a power.)"""
+    k = t[0]
+    if k == "var":
+        return t[1] in loop_vars
+    if k in ("sum", "prod"):
+        return all(integer_typed(c, loop_vars) for c in t[1:])
+    if k == "pow":
+        return integer_typed(t[1], loop_vars) and t[2][0] == "const" and isinstance(t[2][1], int)
+    if k in ("min", "max"):
+        return all(integer_typed(c, loop_vars) for c in t[1:])
+    if k == "if":
+        return integer_typed(t[2], loop_vars) and integer_typed(t[3], loop_vars)
+    return False
 
 
 def strip_reads_of(tree, arr):
@@ -865,6 +925,7 @@ def methods(draw, profile=None):
         # temporaries die with the step, so a name may be re-used with another type in another phase
         g.types = dict(persistent_types)
         g.ints = {n: v for n, v in g.ints.items() if n in persistent_types}
+        g.lbound1 = set()
         body = list(prologue) if i == 0 else []
         body += g.block(0, draw(st.integers(1, p["max_ops"])))
         if p["yields"] and g.chance(50):
